@@ -438,7 +438,7 @@ pub fn gen_op(
 /// must be explained by one of the two sequential orders (Trace_Store "par" events).  Families: the same batch
 /// twice; overlapping batches; an honest batch and an adjacent batch of a fork (only one of them can be stored);
 /// the two halves that close a gap; an independent pair.
-pub fn gen_par(rng: &mut StdRng, u: &Universe, stored: &[(u64, u64)]) -> Option<(Vec<ExtendedHeader>, Vec<ExtendedHeader>)> {
+pub fn gen_par(rng: &mut StdRng, u: &Universe, stored: &[(u64, u64)], interfering_only: bool) -> Option<(Vec<ExtendedHeader>, Vec<ExtendedHeader>)> {
     let len = u.len;
     let hon = |lo: u64, hi: u64| -> Vec<ExtendedHeader> { (lo..=hi).filter(|h| *h >= 1 && *h <= len).map(|h| u.a[(h - 1) as usize].clone()).collect() };
     // a free stretch next to the stored ranges: above the head, or the gap below the top range
@@ -455,7 +455,8 @@ pub fn gen_par(rng: &mut StdRng, u: &Universe, stored: &[(u64, u64)]) -> Option<
         return None;
     }
     let mid = rng.gen_range(lo..hi);
-    let pair = match rng.gen_range(0..5) {
+    let fam = if interfering_only { *[1, 1, 2, 2, 4].choose(rng).unwrap() } else { rng.gen_range(0..5) };
+    let pair = match fam {
         0 => (hon(lo, hi), hon(lo, hi)),
         1 => (hon(lo, mid), hon(lo.max(2) - 1, hi)),
         2 => (hon(mid, hi), hon(lo, mid)),
@@ -537,7 +538,7 @@ async fn history<S: Store>(
         }
         let pruned_runs: Vec<(u64, u64)> = pruned.as_ref().iter().map(|r| (*r.start(), *r.end())).collect();
         if rng.gen_bool(0.07) {
-            if let Some((a, b)) = gen_par(&mut rng, &u, &stored) {
+            if let Some((a, b)) = gen_par(&mut rng, &u, &stored, false) {
                 let mut ids = (vec![], vec![]);
                 for (batch, out) in [(&a, &mut ids.0), (&b, &mut ids.1)] {
                     for h in batch {
@@ -656,6 +657,66 @@ async fn history<S: Store>(
     (results, metas, sigs)
 }
 
+/// Many short histories, each: a stored range, then ONE pair of interfering inserts issued concurrently (overlapping
+/// batches, honest + fork).  A race between two writers needs the right instant; volume gives it the chance.
+async fn par_stress<S: Store>(mk: &mut dyn FnMut() -> S, backend: &str, seed: u64, rounds: u64, len: u64, tw: &mut TraceWriter, sum: &mut Summary) {
+    let mut rng = StdRng::seed_from_u64(seed.wrapping_mul(7_000_003) ^ 0x9a7);
+    let now = Time::now();
+    let base = (now - Duration::from_secs(1_000_000)).unwrap();
+    let u = universe(&mut rng, len, base);
+    for round in 0..rounds {
+        let s = mk();
+        let mut it = Intern { base_secs: base.unix_timestamp(), ..Default::default() };
+        tw.emit(json!({"name": "reset", "backend": backend, "run": 5000 + round}));
+        let p = rng.gen_range(1..len / 2);
+        let q = p + rng.gen_range(0..4);
+        let pre: Vec<ExtendedHeader> = (p..=q).map(|h| u.a[(h - 1) as usize].clone()).collect();
+        let mut emit_ids = |batch: &Vec<ExtendedHeader>, it: &mut Intern, tw: &mut TraceWriter| -> Vec<u64> {
+            let mut ids = vec![];
+            for h in batch {
+                let (id, d) = it.header(h);
+                if let Some(d) = d {
+                    tw.emit(json!({"name": "hdr", "d": d}));
+                }
+                ids.push(id);
+            }
+            ids
+        };
+        let ids = emit_ids(&pre, &mut it, tw);
+        let r = code(&s.insert(pre).await);
+        tw.emit(json!({"name": "insert", "b": ids, "res": r, "st": project(&s, &it, len).await}));
+        let Some((a, b)) = gen_par(&mut rng, &u, &[(p, q)], true) else { continue };
+        let (ia, ib) = (emit_ids(&a, &mut it, tw), emit_ids(&b, &mut it, tw));
+        let (ra, rb) = insert_concurrently(&s, a, b);
+        let mut ev = json!({"name": "par", "a": ia, "b": ib, "ra": ra, "rb": rb});
+        if ra == 99 || rb == 99 {
+            ev["name"] = json!("panic");
+            ev["op"] = json!("concurrent-insert");
+            ev["why"] = json!("a concurrent insert panicked");
+            tw.emit(ev);
+            sum.add("panics", 1);
+            continue;
+        }
+        match std::panic::AssertUnwindSafe(project(&s, &it, len)).catch_unwind().await {
+            Ok(st) => ev["st"] = st,
+            Err(_) => {
+                ev["name"] = json!("panic");
+                ev["op"] = json!("query-after-concurrent-insert");
+                ev["why"] = json!("query panicked");
+                tw.emit(ev);
+                sum.add("panics", 1);
+                continue;
+            }
+        }
+        sum.add("concurrent_insert_pairs", 1);
+        sum.add("concurrent_interfering_pairs", 1);
+        for pr in ["C19", "C20", "C21"] {
+            sum.case(pr, Some(format!("{backend}/stress/{round}")), || ev.clone());
+        }
+        tw.emit(ev);
+    }
+}
+
 pub fn record(args: &Args) {
     let seed = args.opt_u64("seed", 1);
     let runs = args.opt_u64("runs", 4);
@@ -689,6 +750,15 @@ pub fn record(args: &Args) {
             if let Some(i) = (0..upto).find(|i| r1[*i] != r2[*i]) {
                 disagreements.push(json!({"run": run, "op_index": i, "mem": r1[i], "redb": r2[i]}));
             }
+        }
+        let stress = args.opt_u64("stress", 0);
+        if stress > 0 {
+            par_stress(&mut || InMemoryStore::new(), "mem", seed, stress, len.min(40), &mut tw, &mut sum).await;
+            let mut redbs: Vec<RedbStore> = vec![];
+            for _ in 0..stress / 4 {
+                redbs.push(RedbStore::in_memory().await.unwrap());
+            }
+            par_stress(&mut || redbs.pop().unwrap(), "redb", seed, stress / 4, len.min(40), &mut tw, &mut sum).await;
         }
     });
     let n = tw.finish();
